@@ -18,6 +18,7 @@ type StrTok struct {
 	ip   []*Term // 16 bytes (canonical To16 form) for "ip"; 4 or 16 for "cidr"
 	ones int
 	pt   *ProtoTok // kind "proto": a marshalled message converted to string
+	host *HostTok  // kind "host": structured host / host:port
 }
 
 func (w *World) to16(bs []*Term) []*Term {
@@ -45,6 +46,26 @@ func (w *World) ipString(fr *frame, bs []*Term) Str {
 
 // tokEq compares two strings at least one of which is a token.
 func (w *World) tokEq(x, y Str) *Term {
+	if hx, hy := w.hostTok(x), w.hostTok(y); hx != nil && hy != nil && (x.tok.kind == "host" || y.tok.kind == "host") {
+		return w.hostEq(hx, hy)
+	}
+	if (x.tok != nil && x.tok.kind == "host") || (y.tok != nil && y.tok.kind == "host") {
+		// host token against a concrete string: equal only if the concrete string is empty and so is the token
+		h := w.hostTok(x)
+		o := y
+		if h == nil {
+			h, o = w.hostTok(y), x
+		}
+		if cs, ok := o.Concrete(); ok {
+			if h.ip == nil && !h.full {
+				return w.tt.Bool(cs == h.name)
+			}
+			if cs == "" {
+				return w.tt.F
+			}
+		}
+		panic(pathEnd{"unsupported", "comparison of a structured host string with a concrete string"})
+	}
 	bytesOf := func(s Str) ([]*Term, bool) {
 		if s.tok != nil {
 			if s.tok.kind != "ip" {
